@@ -75,11 +75,14 @@ def run(ctx):
                     samples.append(dict(kind=j["kind"], lang=j["lang"], tokens=j["ts"], verdict=j["v"], why=j["why"]))
                     break
     counts = stats["counts"]
+    # registered (custom) functions: lookup gate, user checker and declared arity against the table of the moment
+    import fam_xfuncs
+    ftab = fam_xfuncs.stage(ctx, "C04")
     cov = dict(
         evaluations=stats["sequences"], distinct_nontrivial=stats["judged"],
         rule="every input enumerated by XPathGrammarGen (all sequences to the stated lengths, all single-token mutants); "
              "non-trivial = judged (verdict accept or reject; 'unspecified' inputs are compiled for totality only)",
-        samples=samples, verdict_vs_code=counts, bounds=t, exhaustive=True,
+        samples=samples, verdict_vs_code=counts, function_table=ftab, bounds=t, exhaustive=True,
         explanation="the verdicts are computed by TLC from XPathGrammar/XPathLex; states/transitions count generator jobs, "
                     "'evaluations' counts classified inputs replayed on the real compilers")
     return ctx.finish(cov, [
@@ -96,7 +99,7 @@ MANIFEST = {
              "property lists as rejected, and RFC 6020 path-arg; XPathLex.tla tokenises characters. TLC enumerates all token sequences to a "
              "bounded length over the full alphabet (every name that collides with an operator, function, axis or node-type name in every "
              "position), all single-token mutants of rendered ASTs, and all character-class strings, each with its verdict; the real "
-             "compilers must agree on error-or-not for every judged input, in two whitespace renderings.",
+             "compilers must agree on error-or-not for every judged input, in two whitespace renderings. XPathFuncs.tla (function table as state: registration, custom gate, user checker, declared arity of registered functions) is explored exhaustively on small pools and its sampled behaviours are replayed on the real package (lookup and compile verdicts).",
              note="verdict 'unspecified' where the statement is silent; prefixes '', p, q known; leafref machine is only compiled, never run",
              design="4 C04", technique="TLA+ grammar/lexer specification evaluated by TLC over exhaustively enumerated token and character sequences, replayed on the real compilers"),
 }
